@@ -12,6 +12,7 @@ pub mod c14;
 pub mod c15;
 pub mod c16;
 pub mod c17;
+pub mod c18;
 pub mod c19;
 pub mod c20;
 pub mod lsp_tiers;
@@ -36,6 +37,7 @@ fn table(id: &str) -> Option<(Run, Judge, &'static str, &'static [&'static str])
         "C14" => Some((c14::run, c14::judge, c14::RULE, c14::ASSUMPTIONS)),
         "C15" => Some((c15::run, c15::judge, c15::RULE, c15::ASSUMPTIONS)),
         "C17" => Some((c17::run, c17::judge, c17::RULE, c17::ASSUMPTIONS)),
+        "C18" => Some((c18::run, c18::judge_replay, c18::RULE, c18::ASSUMPTIONS)),
         "C19" => Some((c19::run, c19::judge, c19::RULE, c19::ASSUMPTIONS)),
         "C20" => Some((c20::run, c20::judge, c20::RULE, c20::ASSUMPTIONS)),
         "C16" => Some((c16::run, c16::judge, c16::RULE, c16::ASSUMPTIONS)),
